@@ -714,8 +714,7 @@ pub fn gen_rda_status_in_domain(rng: &mut Rng) -> [u16; 60] {
         2 => (-(*rng.pick(&[12i16, 31, 35, 112, 212, 215]))) as u16,
         _ => rng.range(1, 32767) as u16,
     };
-    h[8] = 0; // control authorization: "no action" is the only code on which both the
-              // documentation and every implementation agree
+    h[8] = *rng.pick(&[0u16, 2, 4]); // control authorization
     h[10] = *rng.pick(&[4u16, 8]); // operational mode
     h[11] = *rng.pick(&[2u16, 4]); // super resolution
     h[12] = *rng.pick(&[0u16, 1, 2, 4, 8, 16, 32]); // clutter mitigation
